@@ -48,6 +48,13 @@ def _data(rng, n, p, kind):
 KINDS = ["shift", "shift", "bump", "noise", "ties", "scaled"]
 
 
+def _pick_threshold(rng, pos):
+    """a threshold in the range of the (sorted, non-negative) scores: a score value itself (an exact tie), one just BELOW a score (the score exceeds it by one unit in the
+    last place, or by a relative 3e-7: a comparison with a tolerance would miss it), half the maximum, zero"""
+    v = pos[rng.choice([len(pos) // 2, (3 * len(pos)) // 4, len(pos) - 1])]
+    return float(rng.choice([0.0, v, pos[-1] * 0.5, float(np.nextafter(v, -np.inf)), v * (1.0 - 3e-7), float(np.nextafter(pos[-1], -np.inf))]))
+
+
 def _agg(scorer, cuts):
     return np.sum(scorer.evaluate(np.asarray(cuts, dtype=np.int64)), axis=1)
 
@@ -121,7 +128,7 @@ def mw_float_stream(ctx, count):
             row[t] = float(v)
         # a threshold in the range of the scores: some score value itself (a tie with the threshold), or just below / above the maximum
         pos = sorted(v for v in vals if v >= 0) or [0.0]
-        thr = float(rng.choice([0.0, pos[len(pos) // 2], pos[-1] * 0.5, pos[(3 * len(pos)) // 4]]))
+        thr = _pick_threshold(rng, pos)
         d.threshold_ = thr
         scores = d.transform_scores(X).to_numpy().reshape(-1)
         cpts = [int(v) for v in d.predict(X)["ilocs"]]
@@ -169,7 +176,7 @@ def sbs_float_stream(ctx, count):
         tabl = d.scores
         ivs = [(int(a), int(b_)) for a, b_ in zip(tabl["start"], tabl["end"])]
         pos = sorted(float(v) for v in tabl["score"] if v >= 0) or [0.0]
-        thr = float(rng.choice([0.0, pos[len(pos) // 2], pos[-1] * 0.5, pos[(3 * len(pos)) // 4]]))
+        thr = _pick_threshold(rng, pos)
         d.threshold_ = thr
         cpts = [int(v) for v in d.predict(X)["ilocs"]]
         tabl = d.scores
@@ -228,7 +235,7 @@ def cbs_float_stream(ctx, count):
         tabl = d.scores
         ivs = [(int(a), int(b_)) for a, b_ in zip(tabl["interval_start"], tabl["interval_end"])]
         pos = sorted(float(v) for v in tabl["score"] if v >= 0) or [0.0]
-        thr = float(rng.choice([0.0, pos[len(pos) // 2], pos[-1] * 0.5, pos[(3 * len(pos)) // 4]]))
+        thr = _pick_threshold(rng, pos)
         d.threshold_ = thr
         y = d.predict(X)
         anoms = [(int(l), int(r)) for l, r in zip(y["ilocs"].array.left, y["ilocs"].array.right)]
